@@ -10,9 +10,9 @@ consumed (`encoding: [..]`), these must match the stream at the running position
 accepted only when consecutive outputs tile it exactly.  Inputs for which that fails in the batch
 (an undecodable neighbour can swallow bytes) are decoded again on their own.
 
-The per-ISA normalisers live in vf/llvmnorm_*.py style functions further down: they are written by
-hand from the ISA manuals (register names, operand order, immediate scaling as *documented*), they
-are not derived from ppci's tables.
+x86-64 is decoded by GNU objdump instead (see decode_x86).  The per-ISA normalisers further down
+are written by hand from the ISA manuals (register names, operand order, aliases as *documented*);
+they are not derived from ppci's tables.
 """
 
 import re
@@ -31,7 +31,7 @@ LLVM_TARGETS = {
     "x86_64": ("x86_64", "", ["--output-asm-variant=1"]),
     "avr": ("avr", "+avr6", []),
     "msp430": ("msp430", "", []),
-    "mips": ("mips", "+mips32r2", ["-M", "no-aliases"]),
+    "mips": ("mips", "+mips32r2", []),
     "m68k": ("m68k", "", []),
 }
 
